@@ -46,6 +46,7 @@ def cases(ctx):
         for _ in range(8):
             yield 'toks', {'len': 4, 'start': rng.randrange(22 ** 4 - 2000), 'count': 2000}
     n = 400 if q else 12000
+    ctx.new_phase()
     for i in range(n):
         if not ctx.time_left():
             break
